@@ -5,6 +5,16 @@
 //! common representation.
 
 use grafeo_common::types::Value;
+use grafeo_common::utils::error::{Error, QueryError, QueryErrorKind, Result};
+
+/// Deepest nesting of operators and expressions in a plan that the binder, optimizer,
+/// planner and executor accept.
+///
+/// All of them (and `Drop`) walk the plan recursively, one level costing up to about
+/// 1.7 KiB of stack in a debug build. A plan nested deeper than the stack allows would
+/// overflow it, which aborts the process instead of returning an error, so such plans are
+/// refused up front. 512 levels need less than half of the 2 MiB stack of a spawned thread.
+pub const MAX_PLAN_DEPTH: usize = 512;
 
 /// A logical query plan.
 #[derive(Debug, Clone)]
@@ -18,7 +28,43 @@ impl LogicalPlan {
     pub fn new(root: LogicalOperator) -> Self {
         Self { root }
     }
+
+    /// Checks that operators and expressions nest at most [`MAX_PLAN_DEPTH`] levels deep.
+    ///
+    /// The check itself uses a work list instead of recursion, so it is safe on a plan of
+    /// any depth.
+    ///
+    /// # Errors
+    ///
+    /// Returns a semantic query error if the plan is nested too deeply.
+    pub fn check_depth(&self) -> Result<()> {
+        let mut pending = vec![(PlanNode::Operator(&self.root), 1usize)];
+        while let Some((node, depth)) = pending.pop() {
+            if depth > MAX_PLAN_DEPTH {
+                return Err(Error::Query(QueryError::new(
+                    QueryErrorKind::Semantic,
+                    format!(
+                        "Query is too complex: its plan nests more than {MAX_PLAN_DEPTH} operators and expressions"
+                    ),
+                )));
+            }
+            match node {
+                PlanNode::Operator(op) => op.push_children(depth + 1, &mut pending),
+                PlanNode::Expression(expr) => expr.push_children(depth + 1, &mut pending),
+            }
+        }
+        Ok(())
+    }
 }
+
+/// An operator or an expression of a plan, for the non-recursive walk of `check_depth`.
+enum PlanNode<'a> {
+    Operator(&'a LogicalOperator),
+    Expression(&'a LogicalExpression),
+}
+
+/// Work list of `check_depth`: nodes still to visit, with their depth.
+type PendingNodes<'a> = Vec<(PlanNode<'a>, usize)>;
 
 /// A logical operator in the query plan.
 #[derive(Debug, Clone)]
@@ -155,6 +201,101 @@ pub enum LogicalOperator {
 }
 
 impl LogicalOperator {
+    /// Pushes the operators and expressions directly below this operator.
+    fn push_children<'a>(&'a self, depth: usize, pending: &mut PendingNodes<'a>) {
+        let mut op = |o: &'a LogicalOperator| pending.push((PlanNode::Operator(o), depth));
+        match self {
+            Self::NodeScan(NodeScanOp { input, .. })
+            | Self::EdgeScan(EdgeScanOp { input, .. })
+            | Self::CreateNode(CreateNodeOp { input, .. })
+            | Self::TripleScan(TripleScanOp { input, .. })
+            | Self::InsertTriple(InsertTripleOp { input, .. })
+            | Self::DeleteTriple(DeleteTripleOp { input, .. })
+            | Self::VectorScan(VectorScanOp { input, .. }) => {
+                if let Some(input) = input {
+                    op(input);
+                }
+            }
+            Self::Expand(ExpandOp { input, .. })
+            | Self::Filter(FilterOp { input, .. })
+            | Self::Project(ProjectOp { input, .. })
+            | Self::Aggregate(AggregateOp { input, .. })
+            | Self::Limit(LimitOp { input, .. })
+            | Self::Skip(SkipOp { input, .. })
+            | Self::Sort(SortOp { input, .. })
+            | Self::Distinct(DistinctOp { input, .. })
+            | Self::CreateEdge(CreateEdgeOp { input, .. })
+            | Self::DeleteNode(DeleteNodeOp { input, .. })
+            | Self::DeleteEdge(DeleteEdgeOp { input, .. })
+            | Self::SetProperty(SetPropertyOp { input, .. })
+            | Self::AddLabel(AddLabelOp { input, .. })
+            | Self::RemoveLabel(RemoveLabelOp { input, .. })
+            | Self::Return(ReturnOp { input, .. })
+            | Self::Bind(BindOp { input, .. })
+            | Self::Unwind(UnwindOp { input, .. })
+            | Self::Merge(MergeOp { input, .. })
+            | Self::ShortestPath(ShortestPathOp { input, .. })
+            | Self::VectorJoin(VectorJoinOp { input, .. })
+            | Self::Modify(ModifyOp {
+                where_clause: input,
+                ..
+            }) => op(input),
+            Self::Join(JoinOp { left, right, .. })
+            | Self::LeftJoin(LeftJoinOp { left, right, .. })
+            | Self::AntiJoin(AntiJoinOp { left, right }) => {
+                op(left);
+                op(right);
+            }
+            Self::Union(union) => union.inputs.iter().for_each(op),
+            Self::Empty
+            | Self::ClearGraph(_)
+            | Self::CreateGraph(_)
+            | Self::DropGraph(_)
+            | Self::LoadGraph(_)
+            | Self::CopyGraph(_)
+            | Self::MoveGraph(_)
+            | Self::AddGraph(_) => {}
+        }
+
+        let mut expr = |e: &'a LogicalExpression| pending.push((PlanNode::Expression(e), depth));
+        match self {
+            Self::Filter(filter) => expr(&filter.predicate),
+            Self::Project(project) => project.projections.iter().for_each(|p| expr(&p.expression)),
+            Self::Join(join) => join.conditions.iter().for_each(|c| {
+                expr(&c.left);
+                expr(&c.right);
+            }),
+            Self::Aggregate(agg) => {
+                agg.group_by.iter().for_each(&mut expr);
+                agg.aggregates
+                    .iter()
+                    .filter_map(|a| a.expression.as_ref())
+                    .for_each(&mut expr);
+                agg.having.iter().for_each(&mut expr);
+            }
+            Self::Sort(sort) => sort.keys.iter().for_each(|k| expr(&k.expression)),
+            Self::CreateNode(CreateNodeOp { properties, .. })
+            | Self::CreateEdge(CreateEdgeOp { properties, .. })
+            | Self::SetProperty(SetPropertyOp { properties, .. }) => {
+                properties.iter().for_each(|(_, e)| expr(e));
+            }
+            Self::Return(ret) => ret.items.iter().for_each(|i| expr(&i.expression)),
+            Self::LeftJoin(join) => join.condition.iter().for_each(expr),
+            Self::Bind(BindOp { expression, .. }) | Self::Unwind(UnwindOp { expression, .. }) => {
+                expr(expression);
+            }
+            Self::Merge(merge) => merge
+                .match_properties
+                .iter()
+                .chain(&merge.on_create)
+                .chain(&merge.on_match)
+                .for_each(|(_, e)| expr(e)),
+            Self::VectorScan(VectorScanOp { query_vector, .. })
+            | Self::VectorJoin(VectorJoinOp { query_vector, .. }) => expr(query_vector),
+            _ => {}
+        }
+    }
+
     /// Returns true if `variable` is bound to an edge somewhere below this operator.
     #[must_use]
     pub fn binds_edge_variable(&self, variable: &str) -> bool {
@@ -1012,6 +1153,62 @@ pub enum LogicalExpression {
     CountSubquery(Box<LogicalOperator>),
 }
 
+impl LogicalExpression {
+    /// Pushes the expressions and subquery operators directly below this expression.
+    fn push_children<'a>(&'a self, depth: usize, pending: &mut PendingNodes<'a>) {
+        let mut expr = |e: &'a LogicalExpression| pending.push((PlanNode::Expression(e), depth));
+        match self {
+            Self::Binary { left, right, .. } => {
+                expr(left);
+                expr(right);
+            }
+            Self::Unary { operand, .. } => expr(operand),
+            Self::FunctionCall { args, .. } => args.iter().for_each(expr),
+            Self::List(items) => items.iter().for_each(expr),
+            Self::Map(entries) => entries.iter().for_each(|(_, e)| expr(e)),
+            Self::IndexAccess { base, index } => {
+                expr(base);
+                expr(index);
+            }
+            Self::SliceAccess { base, start, end } => {
+                expr(base);
+                start.iter().chain(end).for_each(|e| expr(e));
+            }
+            Self::Case {
+                operand,
+                when_clauses,
+                else_clause,
+            } => {
+                operand.iter().chain(else_clause).for_each(|e| expr(e));
+                when_clauses.iter().for_each(|(when, then)| {
+                    expr(when);
+                    expr(then);
+                });
+            }
+            Self::ListComprehension {
+                list_expr,
+                filter_expr,
+                map_expr,
+                ..
+            } => {
+                expr(list_expr);
+                filter_expr.iter().for_each(|e| expr(e));
+                expr(map_expr);
+            }
+            Self::ExistsSubquery(op) | Self::CountSubquery(op) => {
+                pending.push((PlanNode::Operator(op), depth));
+            }
+            Self::Literal(_)
+            | Self::Variable(_)
+            | Self::Property { .. }
+            | Self::Parameter(_)
+            | Self::Labels(_)
+            | Self::Type(_)
+            | Self::Id(_) => {}
+        }
+    }
+}
+
 /// Binary operator.
 #[derive(Debug, Clone, Copy, PartialEq, Eq)]
 pub enum BinaryOp {
@@ -1153,5 +1350,83 @@ mod tests {
         } else {
             panic!("Expected Return");
         }
+    }
+
+    fn filter_stack(levels: usize) -> LogicalPlan {
+        let mut op = LogicalOperator::NodeScan(NodeScanOp {
+            variable: "n".into(),
+            label: None,
+            input: None,
+        });
+        for _ in 1..levels {
+            op = LogicalOperator::Filter(FilterOp {
+                predicate: LogicalExpression::Literal(Value::Bool(true)),
+                input: Box::new(op),
+            });
+        }
+        LogicalPlan::new(op)
+    }
+
+    fn and_chain(levels: usize) -> LogicalExpression {
+        let mut expr = LogicalExpression::Literal(Value::Bool(true));
+        for _ in 1..levels {
+            expr = LogicalExpression::Binary {
+                left: Box::new(expr),
+                op: BinaryOp::And,
+                right: Box::new(LogicalExpression::Literal(Value::Bool(true))),
+            };
+        }
+        expr
+    }
+
+    #[test]
+    fn test_check_depth_accepts_plans_within_the_limit() {
+        assert!(filter_stack(1).check_depth().is_ok());
+        assert!(filter_stack(MAX_PLAN_DEPTH - 1).check_depth().is_ok());
+
+        // The scan is level 1, the filter level 2, its predicate starts at level 3
+        let plan = LogicalPlan::new(LogicalOperator::Filter(FilterOp {
+            predicate: and_chain(MAX_PLAN_DEPTH - 2),
+            input: Box::new(filter_stack(1).root),
+        }));
+        assert!(plan.check_depth().is_ok());
+    }
+
+    #[test]
+    fn test_check_depth_refuses_deep_operator_stacks() {
+        let err = filter_stack(MAX_PLAN_DEPTH + 1).check_depth().unwrap_err();
+        assert!(err.to_string().contains("too complex"), "{err}");
+        assert!(filter_stack(4 * MAX_PLAN_DEPTH).check_depth().is_err());
+    }
+
+    #[test]
+    fn test_check_depth_refuses_deep_expressions() {
+        let plan = LogicalPlan::new(LogicalOperator::Filter(FilterOp {
+            predicate: and_chain(MAX_PLAN_DEPTH),
+            input: Box::new(filter_stack(1).root),
+        }));
+        assert!(plan.check_depth().is_err());
+
+        // Operators and the expressions inside them add up along one path
+        let mut op = LogicalOperator::Filter(FilterOp {
+            predicate: and_chain(MAX_PLAN_DEPTH / 2 + 1),
+            input: Box::new(filter_stack(1).root),
+        });
+        for _ in 0..MAX_PLAN_DEPTH / 2 {
+            op = LogicalOperator::Limit(LimitOp {
+                count: 1,
+                input: Box::new(op),
+            });
+        }
+        assert!(LogicalPlan::new(op).check_depth().is_err());
+
+        // A subquery inside an expression counts as well
+        let plan = LogicalPlan::new(LogicalOperator::Filter(FilterOp {
+            predicate: LogicalExpression::ExistsSubquery(Box::new(
+                filter_stack(MAX_PLAN_DEPTH).root,
+            )),
+            input: Box::new(filter_stack(1).root),
+        }));
+        assert!(plan.check_depth().is_err());
     }
 }
